@@ -13,9 +13,9 @@ LEVEL = "exploration"
 RULE = ("scenario = (phase, server bytes, ending) with phase in {handshake, frames}; bytes from: uniform random; "
         "grammar-based valid traffic with one field corrupted (status line pieces, header separators, non-UTF-8 header "
         "bytes, Content-Length absent/garbage/negative/huge, Location absent/relative/foreign scheme/garbage, odd "
-        "Set-Cookie values; frame header bits, declared lengths up to 2^64-1, truncated payloads); all byte strings of "
+        "Set-Cookie values incl. names http.cookies refuses, Location hosts the IDNA codec refuses; frame header bits, declared lengths up to 2^64-1, truncated payloads); all byte strings of "
         "length <=1 (quick) / <=2 (thorough) in each phase; ending = end of stream or silence (socket timeout set).  "
-        "Client: connect(), then recv() / recv_data_frame(True) until it raises or 32 calls.  Oracle: every exception "
+        "Client: WebSocket(fire_cont_frame, skip_utf8_validation in all four combinations) connect(), then recv() / recv_data_frame(True) until it raises or 32 calls.  Oracle: every exception "
         "leaving a call is a WebSocketException subclass or an OSError from the transport; returned values agree with "
         "the reference decoder on the bytes consumed; every call ends within a step budget proportional to the bytes it "
         "consumed (line-event counting) and the run never deadlocks; the largest bufsize ever passed to the simulated "
@@ -32,7 +32,7 @@ HS_CORRUPTIONS = ("none", "no_spaces_status", "nonnumeric_status", "empty_status
                   "redirect_no_location", "redirect_relative", "redirect_foreign_scheme", "redirect_garbage", "redirect_empty",
                   "redirect_unresolvable", "setcookie_odd", "very_long_line", "many_headers", "status_100", "http09", "tab_separators",
                   "trailing_garbage", "truncated_head", "extra_space_status", "accept_nonascii", "duplicate_status", "unicode_digit_status",
-                  "fullwidth_digit_status", "status_with_sign", "status_with_underscore")
+                  "fullwidth_digit_status", "status_with_sign", "status_with_underscore", "setcookie_illegal_key", "redirect_idna")
 FR_CORRUPTIONS = ("none", "rsv", "opcode", "len_2_63", "len_2_64_minus_1", "len_16bit_huge", "truncated_payload", "truncated_header",
                   "truncated_extlen", "masked_garbage", "close_1byte", "close_badcode", "close_badutf8", "ping_long", "cont_idle",
                   "text_badutf8", "text_truncated_utf8", "random_tail", "zero_bytes", "nested_text", "frag_text_badutf8_first", "frag_text_badutf8_middle",
@@ -102,11 +102,16 @@ def hs_bytes(rng, corr):
     elif corr.startswith("redirect_"):
         status_line = "HTTP/1.1 " + rng.choice(("301 Moved", "302 Found", "303 See", "307 T", "308 P"))
         loc = {"redirect_no_location": None, "redirect_relative": "/other/path", "redirect_foreign_scheme": "http://elsewhere.test/x",
-               "redirect_garbage": "::::not a url", "redirect_empty": "", "redirect_unresolvable": "ws://nowhere.invalid/"}[corr]
+               "redirect_garbage": "::::not a url", "redirect_empty": "", "redirect_unresolvable": "ws://nowhere.invalid/",
+               "redirect_idna": rng.choice(("ws://a..b/", "ws://" + "x" * 64 + ".test/", "ws://.test/x", "wss://sim.test..:443/"))}[corr]
         hdrs = [] if loc is None else [f"Location: {loc}"]
     elif corr == "setcookie_odd":
         hdrs.append("Set-Cookie: " + rng.choice(("=", ";;;", "a=b; Domain=", "a=b; Domain=.", "ключ=знач; Domain=x.test", "a b c", "a=\"unterminated",
                                                  "a=1; Domain=ex.test; Domain=other.test", "=x; Domain=ex.test", "a=b;Domain=ex.test;Max-Age=abc")))
+    elif corr == "setcookie_illegal_key":
+        # names the cookie grammar of http.cookies matches but then refuses
+        hdrs.append("Set-Cookie: " + rng.choice(("a,b=1", "a@b=1; Domain=x.test", "a/b=1", "(a)=1", "a?=1", "a=1; b,c=2", "{a}=1; Domain=sim.test",
+                                                 "a:b=1", "<a>=1", "a=1; Domain=sim.test; x,y=2")))
     out = (status_line + eol + eol.join(hdrs) + eol + eol).encode("utf-8")
     if corr == "nonutf8_value":
         out = out.replace(b"Upgrade: websocket", b"Upgrade: web\xffsocket")
@@ -216,7 +221,8 @@ def expand(item, seed):
                 for end in ("eof", "silence"):
                     for api in ("recv", "recv_data_frame_ctrl"):
                         yield {"phase": "frames", "gen": "grammar", "corr": corr, "hex": fr_bytes(rng, corr).hex(), "end": end,
-                               "api": api, "seed": sd, "trace": sd == 0, "logtrace": sd in (1, 2)}
+                               "api": api, "seed": sd, "trace": sd == 0, "logtrace": sd in (1, 2),
+                               "opts": [[], ["fire_cont"], ["skip_utf8"], ["fire_cont", "skip_utf8"], [], []][sd]}
     else:
         for i in range(item["start"], item["start"] + item["count"]):
             yield gen(random.Random(derive_seed(seed, ID, i)))
@@ -248,7 +254,8 @@ def gen(rng):
         data = bytes(base)
     return {"phase": phase, "gen": g, "corr": corr, "hex": data.hex(), "end": rng.choice(("eof", "silence")),
             "api": rng.choice(("recv", "recv_data_frame_ctrl")), "seed": rng.randrange(1 << 30), "trace": rng.random() < 0.3,
-            "logtrace": rng.random() < 0.25}
+            "logtrace": rng.random() < 0.25,
+            "opts": rng.choice(([], [], [], ["fire_cont"], ["skip_utf8"], ["fire_cont", "skip_utf8"])) if phase == "frames" else []}
 
 
 def run(sc, choices=None):
@@ -264,6 +271,9 @@ def run(sc, choices=None):
         api = sc.get("api", "recv")
         if api not in ("recv", "recv_data_frame_ctrl"):
             raise InvalidScenario("api")
+        opts = list(sc.get("opts") or [])
+        if any(o not in ("fire_cont", "skip_utf8") for o in opts) or len(set(opts)) != len(opts):
+            raise InvalidScenario("opts")
     except (KeyError, TypeError, ValueError) as e:
         raise InvalidScenario(str(e))
     T = 2 * S
@@ -286,7 +296,9 @@ def run(sc, choices=None):
     obs = []
     with w:
         ws = w.ws
-        c = ws.WebSocket()
+        # the receive options a caller may legitimately construct the object with: per-fragment delivery and "do not
+        # validate UTF-8" change what is returned, never which kind of exception may leave a call
+        c = ws.WebSocket(fire_cont_frame="fire_cont" in opts, skip_utf8_validation="skip_utf8" in opts)
         c.settimeout(T / S)
         if trace:
             w.k.start_tracing()
@@ -346,7 +358,7 @@ def run(sc, choices=None):
     if maxbuf > 65536 and not res.violations:
         res.violate("recv_size_driven_by_peer", ctx, f"largest bufsize passed to socket.recv: {maxbuf}")
     # returned values agree with the reference decoder (frame phase, connect succeeded)
-    if phase == "frames" and not res.violations and calls and calls[0][1] == "ok":
+    if phase == "frames" and not opts and not res.violations and calls and calls[0][1] == "ok":
         frames, pos = R.decode_all(data)
         exp, writes, complete = predict(frames, api, False, False, "none")
         rest = data[pos:]
@@ -358,7 +370,7 @@ def run(sc, choices=None):
         why = obs_matches(obs, exp, complete)
         if why and not _only_after_close(frames, obs, exp):
             res.violate("returned_values_disagree_with_bytes", ctx, why)
-    res.sig = repr((phase, sc.get("gen"), sc.get("corr"), end, tuple(outcome_cls[:3]), api,
+    res.sig = repr((phase, sc.get("gen"), sc.get("corr"), end, tuple(outcome_cls[:3]), api, tuple(opts),
                     (min(len(data), 64), data[:2].hex()) if sc.get("gen") in ("random", "short", "mutated") else 0))
     res.nontrivial = sc.get("corr") != "none"
     res.probes["phase_" + phase] = 1
@@ -377,4 +389,4 @@ def _only_after_close(frames, obs, exp):
 
 def sample_view(sc, r):
     return {"phase": sc["phase"], "generator": sc.get("gen"), "corrupted_field": sc.get("corr"), "bytes_hex": sc["hex"][:160],
-            "ending": sc.get("end"), "api": sc.get("api"), "line_tracing": sc.get("trace"), "library_trace_logging": sc.get("logtrace")}
+            "ending": sc.get("end"), "api": sc.get("api"), "receive_options": sc.get("opts") or [], "line_tracing": sc.get("trace"), "library_trace_logging": sc.get("logtrace")}
